@@ -17,10 +17,11 @@ def run(run_, pkg, tier):
     run_.trusted_base = ["gsverif.interp semantics of dict/defaultdict/reduce/lil_matrix block stores", "call resolution by class hierarchy"]
     run_.assumptions = ["that the free block's numeric solution equals the reduced problem's solution is numeric (spsolve) and not decided"]
     oa = optim_rules.analyse(pkg)
-    n = optim_rules.report(run_, oa, ["C06-"])
+    n = optim_rules.optimize_verdicts(run_, pkg, "C06", lambda f: (f.key, f.rule) if f.rule.startswith("C06-") else None)
     run_.floor("C06 optimize rule instances", n, 8)
-    run_.floor("stores to .fixed in the package", oa.n_fixed_stores, 2)
-    run_.floor("pose stores in optimize", oa.n_pose_stores, 1)
+    if not oa.failed:
+        run_.floor("stores to .fixed in the package", oa.n_fixed_stores, 2)
+        run_.floor("pose stores in optimize", oa.n_pose_stores, 1)
     fn = pkg.method("Graph", "_calc_chi2_gradient_hessian")
     tasks = []
     for scn in SCENARIOS:
